@@ -4,6 +4,9 @@
 #include <yaclib/async/contract.hpp>
 #include <yaclib/async/shared_contract.hpp>
 #include <yaclib/async/wait.hpp>
+#include <yaclib/coro/await.hpp>
+#include <yaclib/coro/future.hpp>
+#include <yaclib/coro/shared_future.hpp>
 #include <yaclib/async/wait_for.hpp>
 #include <yaclib/async/wait_until.hpp>
 
@@ -45,6 +48,7 @@ struct Item {
   bool later_have = false;
   bool ready_at_return = false;
   std::uint64_t ready_seen_at = 0;
+  bool by_coroutine = false;  // produced by a coroutine (completion through final_suspend / Next) instead of Promise::Set
 };
 
 constexpr std::size_t kCanaryBytes = 8192;
@@ -67,6 +71,7 @@ class Case final : public sim::CaseBase {
       it.shared = kind == kShared || (kind == kMixed && (i % 2) == 1);
       it.after = static_cast<int>(g.Draw(kAfterCount));
       it.id = 10U * static_cast<std::uint32_t>(i + 1) + g.Noise(9);
+      it.by_coroutine = g.Draw(3) == 2;
       items.push_back(it);
     }
     if (kind == kMixed && n == 1) {
@@ -83,7 +88,7 @@ class Case final : public sim::CaseBase {
     j.Key("futures").Arr();
     static const char* outs[] = {"value", "error", "exception"};
     for (auto& it : items) {
-      j.Obj().KV("completes_at_ns", it.at).KV("outcome", outs[it.outcome]).KV("shared", it.shared).KV("consumed_afterwards_by", kAfterNames[it.after]).End();
+      j.Obj().KV("completes_at_ns", it.at).KV("outcome", outs[it.outcome]).KV("shared", it.shared).KV("produced_by", it.by_coroutine ? "coroutine" : "promise").KV("consumed_afterwards_by", kAfterNames[it.after]).End();
     }
     j.EndArr();
   }
@@ -99,6 +104,27 @@ class Case final : public sim::CaseBase {
       return {OKind::Exception, it.id};
     }
     return {OKind::Value, it.id};
+  }
+
+  template <typename R>
+  static R CoItem(Case* c, std::size_t i, yaclib::Future<void, E> gate) {
+    co_await yaclib::Await(gate);
+    Item& it = c->items[i];
+    sim::RaceWrite(&c->payload[i], sizeof(std::uint32_t));
+    c->payload[i] = it.id;
+    it.set_invoke = sim::Seq();
+    if (it.outcome == 2) {
+      throw sim::TaggedEx{it.id};
+    }
+    if (it.outcome == 1) {
+      co_return E{it.id};
+    }
+    co_return T{it.id};
+  }
+
+  void OpenGate(yaclib::Promise<void, E> gate, Item& it) {
+    std::move(gate).Set();
+    it.set_return = sim::Seq();
   }
 
   template <typename P>
@@ -278,6 +304,24 @@ class Case final : public sim::CaseBase {
     std::deque<yaclib_std::thread> ts;
     for (std::size_t i = 0; i < n; ++i) {
       Item& it = items[i];
+      if (it.by_coroutine) {
+        SIM_PROBE("awaited_future_produced_by_coroutine");
+        auto [gf, gp] = yaclib::MakeContract<void, E>();
+        if (it.shared) {
+          sf[i] = CoItem<yaclib::SharedFuture<T, E>>(this, i, std::move(gf));
+        } else {
+          uf[i] = CoItem<yaclib::Future<T, E>>(this, i, std::move(gf));
+        }
+        if (it.at == 0) {
+          OpenGate(std::move(gp), it);
+        } else {
+          ts.emplace_back([this, &it, pp = std::move(gp)]() mutable {
+            sim::SleepNs(it.at);
+            OpenGate(std::move(pp), it);
+          });
+        }
+        continue;
+      }
       if (it.shared) {
         auto [f, p] = yaclib::MakeSharedContract<T, E>();
         sf[i] = std::move(f);
